@@ -1828,6 +1828,16 @@ Proof.
     destruct (step_frame s o s1 b E) as (A' & B' & _). pose proof (step_wf s o s1 b E). repeat split; congruence.
 Qed.
 
+Lemma run_app : forall a b s, run s (a ++ b) =
+  (x <- run s a ;; y <- run (fst x) b ;; Ok (fst y, snd x ++ snd y)).
+Proof.
+  induction a as [|o a IH]; intros b s; cbn [app run bind fst snd].
+  - destruct (run s b) as [[s' obs]|e|e]; reflexivity.
+  - destruct (step s o) as [[s1 ob]|e|e]; cbn [bind fst snd]; try reflexivity.
+    rewrite IH. destruct (run s1 a) as [[s2 o2]|e|e]; cbn [bind fst snd]; try reflexivity.
+    destruct (run s2 b) as [[s3 o3]|e|e]; cbn [bind fst snd]; reflexivity.
+Qed.
+
 Lemma r_on_data_first : forall r sn p, r_rel r = true -> r_first (r_on_data r sn p) = r_first r.
 Proof.
   intros r sn p Hrel. unfold r_on_data. rewrite Hrel.
@@ -1879,9 +1889,9 @@ Section Repair.
         exists nf, nfo = Some nf /\ n_sn nf = sn /\ n_count nf = r_nfcount r + 1 /\
           (forall k, 1 <= k <= n -> ~ present (r_buf r) sn k -> k < L + 256 -> In k (n_set nf)))).
   Proof.
-    intros L N c final s [Hs Hwrel Hrrel Hlk Hn [Hsn Hlast]] (Hmax & Hexp & Hinc & Honly & Hpres)
+    intros L N c final s [Hf Hh Hr Hwrel Hrrel Hlk Hn [Hsn Hlast]] (Hmax & Hexp & Hinc & Honly & Hpres)
            [C1 C2 [C3 C4] C5] HN Hc r n.
-    pose proof Hs as [Hf Hh Hr].
+    pose proof (mksinv s Hf Hh Hr) as Hs.
     assert (Hwa : wrap_i32 (r_ackcount r + 1) = r_ackcount r + 1)
       by (apply wrap_i32_small; unfold i32_min, i32_max in *; fold r in C2, C4; lia).
     assert (Hwn : wrap_i32 (r_nfcount r + 1) = r_nfcount r + 1)
@@ -1991,7 +2001,8 @@ Section Repair.
       (In (sn, p) (r_changes (s_r s')) \/
        pending (match r_buf (s_r s) with [] => 2 | _ => L + 256 end) s').
   Proof.
-    intros L N c final s Hrep Hc HN Hhb Hst. pose proof Hrep as [Hs Hwrel Hrrel Hlk Hn [Hsn Hlast]].
+    intros L N c final s Hrep Hc HN Hhb Hst. pose proof Hrep as [Hf0 Hh0 Hr0 Hwrel Hrrel Hlk Hn [Hsn Hlast]].
+    pose proof (mksinv s Hf0 Hh0 Hr0) as Hs.
     assert (Hok : Forall op_ok (round c final)) by (repeat constructor).
     assert (Hnf : Forall no_forged (round c final)) by (repeat constructor).
     destruct (run_total (round c final) s Hs Hok) as (s' & obs & E).
@@ -2001,7 +2012,7 @@ Section Repair.
     pose proof (run_cinv (round c final) N s s' obs Hc ltac:(cbn [round length]; lia) Hnf E) as Hc'.
     cbn [round length] in Hc'. replace (N + Z.of_nat 3) with (N + 3) in Hc' by lia.
     assert (Hrep' : rep s').
-    { constructor; rewrite ?Fw, ?Fr, ?Ff, ?Hch'; auto. }
+    { destruct Hs' as [A1 A2 A3]. constructor; rewrite ?Fw, ?Fr, ?Ff, ?Hch' in *; auto. }
     split; [exact Hrep'|]. split; [exact Hc'|].
     (* unfold the three steps *)
     pose proof E as E0. cbn [run round] in E.
@@ -2095,3 +2106,214 @@ Section Repair.
       split; [exact A|]. split; [exact B|]. split; [exact C|].
       intros k Hk1 Hk2. apply D; [fold n; lia|lia].
   Qed.
+
+  Local Notation rounds := (rounds first last).
+
+  Lemma pending_weaken : forall L L' s, L <= L' -> pending L' s -> pending L s.
+  Proof.
+    intros L L' s HL (A & B & C & D & E). repeat split; try assumption. intros k Hk Hk2. apply E; lia.
+  Qed.
+
+  Lemma pending_nonempty : forall L s, rep s -> 2 <= L -> pending L s -> r_buf (s_r s) <> [].
+  Proof.
+    intros L s [_ _ _ _ _ _ Hn _] HL (_ & _ & _ & _ & E) Hnil.
+    destruct (E 1 ltac:(lia) ltac:(lia)) as (x & Hx & _). rewrite Hnil in Hx. destruct Hx.
+  Qed.
+
+  (* everything below L present with L beyond the last fragment number contradicts `incomplete` *)
+  Lemma pending_full : forall L s, div_ceil (blen p) (w_f (s_w s)) < L -> ~ pending L s.
+  Proof.
+    intros L s HL (_ & _ & C & _ & E). apply C. intros i Hi. apply E; lia.
+  Qed.
+
+  Lemma rounds_progress : forall k L N c final s, rep s -> cinv N s -> N + 3 * Z.of_nat k <= i32_max ->
+    r_hbcount (s_r s) < c -> 2 <= L ->
+    (In (sn, p) (r_changes (s_r s)) \/ pending L s) ->
+    exists s' obs, run s (rounds c final k) = Ok (s', obs) /\ rep s' /\ cinv (N + 3 * Z.of_nat k) s' /\
+      (In (sn, p) (r_changes (s_r s')) \/ pending (L + 256 * Z.of_nat k) s').
+  Proof.
+    induction k as [|k IH]; intros L N c final s Hrep Hc HN Hhb HL Hst.
+    - cbn [FragModel.rounds run]. exists s, []. split; [reflexivity|]. split; [exact Hrep|].
+      replace (N + 3 * Z.of_nat 0) with N by lia. replace (L + 256 * Z.of_nat 0) with L by lia. auto.
+    - cbn [FragModel.rounds]. rewrite run_app.
+      destruct (round_progress L N c final s Hrep Hc ltac:(lia) Hhb Hst) as (s1 & o1 & E1 & Hrep1 & Hc1 & Hhb1 & Hst1).
+      rewrite E1. cbn [bind fst snd].
+      assert (Hst1' : In (sn, p) (r_changes (s_r s1)) \/ pending (L + 256) s1).
+      { destruct Hst1 as [H|H]; [left; exact H|right].
+        destruct Hst as [Hd|Hp].
+        - (* cannot be: delivered stays delivered; but we only need the weaker claim *)
+          destruct (r_buf (s_r s)); [|exact H].
+          exfalso. destruct H as (_ & Hexp & _). pose proof (run_mono _ _ _ _ E1 _ Hd) as Hd1.
+          destruct Hrep1 as [_ _ [_ _ R3 _] _ _ _ _ _]. rewrite Forall_forall in R3.
+          destruct (R3 _ Hd1) as [_ Hle]. cbn [fst] in Hle. unfold available_changes_max in Hexp. lia.
+        - pose proof (pending_nonempty L s Hrep HL Hp) as Hne.
+          destruct (r_buf (s_r s)); [congruence|exact H]. }
+      destruct (IH (L + 256) (N + 3) (c + 1) final s1 Hrep1 Hc1 ltac:(lia) ltac:(lia) ltac:(lia) Hst1')
+        as (s2 & o2 & E2 & Hrep2 & Hc2 & Hst2).
+      rewrite E2. cbn [bind fst snd]. eexists. eexists. split; [reflexivity|]. split; [exact Hrep2|].
+      replace (N + 3 * Z.of_nat (S k)) with (N + 3 + 3 * Z.of_nat k) by lia.
+      replace (L + 256 * Z.of_nat (S k)) with (L + 256 + 256 * Z.of_nat k) by lia. auto.
+  Qed.
+
+  (* REPAIR, one round: at least one fragment of the sample arrived, any others are lost, and all the
+     missing ones lie within 256 of L (everything below L arrived): heartbeat -> NACK_FRAG -> resend
+     delivers the sample *)
+  Theorem repair_one_round : forall L N c final s, rep s -> cinv N s -> N + 3 <= i32_max ->
+    r_hbcount (s_r s) < c -> pending L s -> r_buf (s_r s) <> [] ->
+    div_ceil (blen p) (w_f (s_w s)) < L + 256 ->
+    exists s' obs, run s (round c final) = Ok (s', obs) /\ In (sn, p) (r_changes (s_r s')).
+  Proof.
+    intros L N c final s Hrep Hc HN Hhb Hp Hne Hn.
+    destruct (round_progress L N c final s Hrep Hc HN Hhb (or_intror Hp)) as (s1 & o1 & E1 & Hrep1 & _ & _ & Hst1).
+    exists s1, o1. split; [exact E1|]. destruct Hst1 as [H|H]; [exact H|].
+    exfalso. destruct (r_buf (s_r s)); [congruence|].
+    destruct (run_frame _ _ _ _ E1) as (_ & _ & Ff). apply (pending_full (L + 256) s1); [rewrite Ff; exact Hn|exact H].
+  Qed.
+
+  (* REPAIR, in general: ANY loss pattern (even every fragment lost), k rounds with
+     total <= 1 + 256 (k - 1): the first round fetches at least fragment 1, every further round the
+     next 256 fragment numbers *)
+  Theorem repair_k_rounds : forall k N c final s, rep s -> cinv N s ->
+    N + 3 * (1 + Z.of_nat k) <= i32_max -> r_hbcount (s_r s) < c -> pending 1 s ->
+    div_ceil (blen p) (w_f (s_w s)) < 2 + 256 * Z.of_nat k ->
+    exists s' obs, run s (rounds c final (S k)) = Ok (s', obs) /\ In (sn, p) (r_changes (s_r s')).
+  Proof.
+    intros k N c final s Hrep Hc HN Hhb Hp Hn.
+    cbn [FragModel.rounds]. rewrite run_app.
+    destruct (round_progress 1 N c final s Hrep Hc ltac:(lia) Hhb (or_intror Hp)) as (s1 & o1 & E1 & Hrep1 & Hc1 & Hhb1 & Hst1).
+    rewrite E1. cbn [bind fst snd].
+    assert (Hst1' : In (sn, p) (r_changes (s_r s1)) \/ pending 2 s1).
+    { destruct Hst1 as [H|H]; [left; exact H|right]. destruct (r_buf (s_r s)); [exact H|].
+      apply (pending_weaken 2 (1 + 256)); [lia|exact H]. }
+    destruct (rounds_progress k 2 (N + 3) (c + 1) final s1 Hrep1 Hc1 ltac:(lia) ltac:(lia) ltac:(lia) Hst1')
+      as (s2 & o2 & E2 & Hrep2 & _ & Hst2).
+    rewrite E2. cbn [bind fst snd]. eexists. eexists. split; [reflexivity|]. cbn [fst].
+    destruct Hst2 as [H|H]; [exact H|]. exfalso.
+    destruct (run_frame _ _ _ _ E1) as (_ & _ & Ff1). destruct (run_frame _ _ _ _ E2) as (_ & _ & Ff2).
+    apply (pending_full (2 + 256 * Z.of_nat k) s2); [rewrite Ff2, Ff1; exact Hn|exact H].
+  Qed.
+End Repair.
+
+(* ------------------------------------------------------------ regression examples: the inputs that used to fail *)
+
+Definition p21 : bytes := [1;2;3;4;5;6;7;8;9;10;11;12;13;14;15;16;17;18;19;20;21].
+Definition p29 : bytes := p21 ++ [22;23;24;25;26;27;28;29].
+
+(* fragment 2 of 3 lost: the reader's NACK_FRAG {2} now carries count 1, the writer answers with
+   fragment 2, the sample is delivered (was: count 0, dropped; C05-nackfrag-count-zero) *)
+Lemma regress_count_zero :
+  exists s ack, run (s_init true 1 8) [OWrite p21; ODeliver 1 0 1; ODeliver 1 2 1; OHb 1 1 1 false; ONackFrag] =
+    Ok (s, [BSent [WFrag (mk_data_frag 1 1 p21 8 0); WFrag (mk_data_frag 1 1 p21 8 1); WFrag (mk_data_frag 1 1 p21 8 2)];
+            BCount 0; BCount 0; BReply (Some (ack, Some (mkNf 1 2 [2] 1)));
+            BResp [WFrag (mk_data_frag 1 1 p21 8 1)] 1]) /\
+    r_changes (s_r s) = [(1, p21)].
+Proof. eexists. eexists. vm_compute. split; reflexivity. Qed.
+
+(* a NACK_FRAG asking for fragment 2 is answered with fragment 2, once; asking for the last one works
+   (was: fragment 3 twice / nothing; C05-nackfrag-off-by-one) *)
+Lemma regress_off_by_one :
+  (exists w', w_on_nack_frag (mkW 8 true 1 [(1, p21)] 0 0) 1 1 2 [2] =
+     Ok (w', [WFrag (mk_data_frag 1 1 p21 8 1)]) /\ fr_start (mk_data_frag 1 1 p21 8 1) = 2) /\
+  (exists w', w_on_nack_frag (mkW 8 true 1 [(1, p21)] 0 0) 1 1 3 [3] =
+     Ok (w', [WFrag (mk_data_frag 1 1 p21 8 2)]) /\ fr_start (mk_data_frag 1 1 p21 8 2) = 3).
+Proof. split; eexists; vm_compute; split; reflexivity. Qed.
+
+(* a DATA_FRAG announcing fragment size 0 is ignored (was: divide by zero; C05-fragsize-zero-div) *)
+Lemma regress_fragsize_zero :
+  exists s, run (s_init true 1 8) [OForeign (mkfrag 1 1 1 1 0 21 [1; 2]); OHb 1 1 1 false] =
+    Ok (s, [BCount 0; BReply (Some (mkAck 1 [1] 1, None))]) /\ r_buf (s_r s) = [].
+Proof. eexists. vm_compute. split; reflexivity. Qed.
+
+(* 300 fragments, only the first received: two rounds (numbers 2..257, then 258..300) deliver the sample
+   (was: index out of bounds building the NACK_FRAG; C05-nackfrag-bitmap-overflow) *)
+Lemma regress_bitmap_overflow :
+  exists s obs, run (s_init true 1 8)
+      ([OWrite (repeat 7 2400); ODeliver 1 0 1] ++ rounds 1 1 1 false 2) = Ok (s, obs) /\
+    r_changes (s_r s) = [(1, repeat 7 2400)].
+Proof. eexists. eexists. vm_compute. split; reflexivity. Qed.
+
+(* two readers of one participant: copies addressed to the other reader are not buffered twice, the full
+   payload is delivered (was: 16 of 29 bytes; C05-mixed-readerid-truncation) *)
+Lemma regress_mixed_readerid :
+  exists s obs, run (s_init true 2 8)
+      [OWrite p29; ODeliver 1 0 1; ODeliver 1 1 1; ODeliver 1 0 2; ODeliver 1 1 2; ODeliver 1 2 2; ODeliver 1 3 1] =
+    Ok (s, obs) /\ r_changes (s_r s) = [(1, p29)].
+Proof. eexists. eexists. vm_compute. split; reflexivity. Qed.
+
+(* both copies of fragment 2 before fragment 1: delivered when fragment 1 arrives; the heartbeat reply is
+   a plain ACKNACK (was: never reassembled + panic; C05-nackfrag-none-missing-panic) *)
+Lemma regress_none_missing :
+  exists s obs, run (s_init true 2 8) [OWrite [1;2;3;4;5;6;7;8;9]; ODeliver 1 1 1; ODeliver 1 1 2; ODeliver 1 0 1; ODeliver 1 0 2;
+                         OHb 1 1 1 false] = Ok (s, obs) /\ r_changes (s_r s) = [(1, [1;2;3;4;5;6;7;8;9])].
+Proof. eexists. eexists. vm_compute. split; reflexivity. Qed.
+
+(* non-vacuity of the positive theorems: a concrete interleaved, duplicated, reordered schedule *)
+Lemma example_reordered :
+  exists s obs, run (s_init true 1 8)
+    [OWrite p21; OWrite p29; ODeliver 2 1 1; ODeliver 1 2 1; ODeliver 1 0 1; ODeliver 1 2 1; ODeliver 2 0 1;
+     ODeliver 1 1 1; ODeliver 2 3 1; ODeliver 2 1 1; ODeliver 2 0 1; ODeliver 2 2 1] = Ok (s, obs) /\
+    r_changes (s_r s) = [(1, p21); (2, p29)].
+Proof. eexists. eexists. vm_compute. split; reflexivity. Qed.
+
+Lemma example_reassemble :
+  reconstruct (fold_left push_frag
+     [mk_data_frag 1 1 p21 8 2; mk_data_frag 1 2 p29 8 0; mk_data_frag 2 1 p21 8 0; mk_data_frag 1 1 p21 8 2;
+      mk_data_frag 1 1 p21 8 1] []) 1 = Ok (Some p21, [mk_data_frag 1 2 p29 8 0]).
+Proof. vm_compute. reflexivity. Qed.
+
+(* non-vacuity of the repair theorems: the state after writing 21 bytes with f = 8 and losing fragment 2
+   meets their hypotheses (L = 1, N = 0) *)
+Lemma example_repair_hypotheses :
+  exists s obs, run (s_init true 1 8) [OWrite p21; ODeliver 1 0 1; ODeliver 1 2 1] = Ok (s, obs) /\
+    rep 1 p21 1 s /\ cinv 0 s /\ pending 1 p21 1 1 s /\ r_buf (s_r s) <> [] /\ r_hbcount (s_r s) < 1 /\
+    div_ceil (blen p21) (w_f (s_w s)) < 1 + 256.
+Proof.
+  set (ops0 := [OWrite p21; ODeliver 1 0 1; ODeliver 1 2 1]).
+  assert (Hf8 : frag_size_ok 8) by (unfold frag_size_ok; lia).
+  assert (Hok : Forall op_ok ops0) by (repeat constructor; cbn; unfold two32; lia).
+  destruct (run_total ops0 (s_init true 1 8) (sinv_init true 1 8 Hf8) Hok) as (s & obs & E).
+  exists s, obs. split; [exact E|].
+  destruct (run_inv ops0 (s_init true 1 8) s obs (sinv_init true 1 8 Hf8) Hok E) as [[Hf Hh Hr] _].
+  assert (Hc : cinv (0 + Z.of_nat (length ops0)) s).
+  { apply (run_cinv ops0 0 (s_init true 1 8) s obs (cinv_init true 1 8)); [cbn; unfold i32_max; lia|repeat constructor|exact E]. }
+  vm_compute in E. injection E as Es _. subst s.
+  split; [constructor; try assumption; vm_compute; try reflexivity; repeat split; discriminate|].
+  split.
+  { destruct Hc as [C1 C2 C3 C4]. constructor; try assumption; vm_compute; repeat split; discriminate. }
+  split.
+  { unfold pending. split; [reflexivity|]. split; [reflexivity|]. split; [|split].
+    - intros Hc'. destruct (Hc' 1 ltac:(vm_compute; split; discriminate || reflexivity)) as (x & Hx & _ & Hst).
+      cbn in Hx. destruct Hx as [<-|[<-|[]]]; vm_compute in Hst; discriminate.
+    - intros x Hx. cbn in Hx. destruct Hx as [<-|[<-|[]]]; reflexivity.
+    - intros k Hk. lia. }
+  split; [discriminate|]. split; [reflexivity|]. vm_compute. reflexivity.
+Qed.
+
+(* ------------------------------------------------------------ statements in the argument order of Props/C05.v *)
+
+Lemma C05_reassemble_any_order_stmt :
+  forall f sn (p : bytes) (l : list frag),
+    0 < f < 65536 -> blen p < two32 -> 1 <= div_ceil (blen p) f ->
+    (forall x, In x l -> fr_sn x = sn ->
+       exists rid i, 0 <= i < div_ceil (blen p) f /\ x = mk_data_frag rid sn p f i) ->
+    (forall i, 0 <= i < div_ceil (blen p) f -> exists rid, In (mk_data_frag rid sn p f i) l) ->
+    reconstruct (fold_left push_frag l []) sn =
+      Ok (Some p, filter (fun x => negb (has_sn sn x)) (fold_left push_frag l [])).
+Proof. intros f sn p l Hf Hp Hn Hl Hall. exact (reassemble_any_order f sn p l Hf Hp Hl Hn Hall). Qed.
+
+Lemma C05_incomplete_stmt :
+  forall f sn (p : bytes) (l : list frag),
+    0 < f < 65536 -> blen p < two32 ->
+    (forall x, In x l -> fr_sn x = sn ->
+       exists rid i, 0 <= i < div_ceil (blen p) f /\ x = mk_data_frag rid sn p f i) ->
+    ~ (forall i, 0 <= i < div_ceil (blen p) f -> exists rid, In (mk_data_frag rid sn p f i) l) ->
+    reconstruct (fold_left push_frag l []) sn = Ok (None, fold_left push_frag l []).
+Proof. intros f sn p l Hf Hp Hl Hn. exact (reassemble_incomplete f sn p l Hf Hp Hl Hn). Qed.
+
+Lemma C05_never_wrong_stmt :
+  forall f sn (p : bytes) (l : list frag) d b',
+    0 < f < 65536 -> blen p < two32 ->
+    (forall x, In x l -> fr_sn x = sn ->
+       exists rid i, 0 <= i < div_ceil (blen p) f /\ x = mk_data_frag rid sn p f i) ->
+    reconstruct (fold_left push_frag l []) sn = Ok (Some d, b') -> d = p.
+Proof. intros f sn p l d b' Hf Hp Hl H. exact (reassemble_never_wrong f sn p l Hf Hp Hl d b' H). Qed.
